@@ -24,7 +24,7 @@ OUTSIDE = ["real DataLoader worker processes (prefetching in other OS processes 
 BOUNDS = {
     "quick": "geometry enumerated n<=5 (sampled); one config with every non-empty combination of interval kinds (ene<=3, enu<=4, ens<=6 symbolic), m<=2, per-config batch size in {None,1,2}; "
              "two/three configs on sampled geometries; inductive epoch step with configs (interval lengths enumerated, E<=1000, budget unbounded); index resolution with unbounded dataset sizes",
-    "thorough": "24 sampled geometries n<=6 for whole runs (all 7 interval-kind masks, ens<=5, 1..3 configs on 16 of them); inductive step on 48 sampled geometries n<=7 with 14 interval-length combinations each",
+    "thorough": "12 sampled geometries n<=6 for whole runs (all 7 interval-kind masks, ens<=5, 1..3 configs on 8 of them); inductive step on 32 sampled geometries n<=7 with 10 interval-length combinations each",
 }
 
 MASKS = ["e", "u", "s", "eu", "es", "us", "eus"]
@@ -80,7 +80,7 @@ def conditions(tier, rng):
     # one config, every non-empty combination of interval kinds (narrow symbolic ranges: the
     # inductive step below carries the wide ranges)
     WV = {"epochs": 2, "updates": 5, "samples": 8} if q else {"epochs": 3, "updates": 7, "samples": 12}
-    sub = rng.sample(geos, 4) if q else rng.sample(geos, 24)
+    sub = rng.sample(geos, 4) if q else rng.sample(geos, 12)
     for g in sub:
         for kind in ("epochs", "updates", "samples"):
             for mk in MASKS:
@@ -89,7 +89,7 @@ def conditions(tier, rng):
                     H, g, kind, [mk], WV[kind], mk in ("s", "eus"), to, m_max=2, cbs_max=1 if not wide else 2, ex_max=0 if not wide else 1,
                     ene_max=3 if wide else 2, enu_max=4 if wide else 2, ens_max=(6 if wide else 3) if q else (9 if wide else 5)))
     # several configs (offset arithmetic, config order)
-    sub2 = rng.sample(geos, 2) if q else rng.sample(geos, 16)
+    sub2 = rng.sample(geos, 2) if q else rng.sample(geos, 8)
     for g in sub2:
         for kind in ("epochs", "updates", "samples"):
             conds.append(whole_geo_cond(H, g, kind, ["eu", "s"], WV[kind], True, to, m_max=2, cbs_max=0, ex_max=1, ene_max=2, enu_max=2, ens_max=3))
@@ -101,9 +101,9 @@ def conditions(tier, rng):
     singles = [f"e{v}" for v in (1, 2, 3)] + [f"u{v}" for v in (1, 2, 3, 4)] + [f"s{v}" for v in range(1, 10)]
     multis = [f"e{a}u{c}" for a in (1, 2) for c in (2, 3)] + [f"e{a}s{c}" for a in (1, 3) for c in (2, 5, 7)] + \
              [f"u{a}s{c}" for a in (2, 3) for c in (3, 4, 7)] + [f"e{a}u{c}s{d}" for a in (2,) for c in (2, 3) for d in (3, 5)]
-    for g in (rng.sample(sgeos, 16) if q else rng.sample(sgeos, 48)):
+    for g in (rng.sample(sgeos, 16) if q else rng.sample(sgeos, 32)):
         for kind in ("epochs", "updates", "samples"):
-            for mk in (rng.sample(singles, 4) + rng.sample(multis, 3) if q else rng.sample(singles, 8) + rng.sample(multis, 6)):
+            for mk in (rng.sample(singles, 4) + rng.sample(multis, 3) if q else rng.sample(singles, 6) + rng.sample(multis, 4)):
                 conds.append(step_cond(H, g, kind, [mk], to, m_max=2, cbs_max=2))
     small = [g for g in sgeos if ilv.geometry(g[0], g[1], g[2], None if g[3] == 0 else g[3] * g[1])[1] <= 3]
     for g in (rng.sample(small, 4) if q else rng.sample(small, 40)):
